@@ -121,9 +121,10 @@ fn run_life(pool: &dyn Pool, nf: usize, life: &Value) {
                             interpose::QUIET_FAILS.store(true, SeqCst);
                             interpose::set_policy(Some(Policy { mmap_fail_from: 1, ..Default::default() }));
                         }
-                        "mprotect" if s(life, "deny") == "page" => {
-                            // the target's page never becomes writable, now or while the scope is left
-                            interpose::DENY_PAGE.store(pool.addr(spec.f) & !0xfff, SeqCst);
+                        "mprotect" if s(life, "deny") == "page" || s(life, "deny") == "page2" => {
+                            // the target's (first or second) page never becomes writable, now or while the scope is left
+                            let second = if s(life, "deny") == "page2" { 4096 } else { 0 };
+                            interpose::DENY_PAGE.store((pool.addr(spec.f) & !0xfff) + second, SeqCst);
                         }
                         "mprotect" => interpose::set_policy(Some(Policy { mprotect_fail_at: 1, ..Default::default() })),
                         _ => {}
